@@ -141,6 +141,8 @@ def build_and_check(acc, fn, n, m, be, hkind, square=False, values='all', gen_mo
                 c, ops = arith.saturated_host(k, wide=True)
             elif hkind == 'DEC':
                 c, ops = arith.decoy_host(k)
+            elif hkind == 'ODD':
+                c, ops = arith.odd_label_host(k)
             elif isinstance(hkind, tuple):  # ('REP', circuit, operand labels) prepared by the caller
                 _, c, ops = hkind
                 hkind = 'REP:' + ','.join(ops)
@@ -302,6 +304,10 @@ def plan(tier):
     for n, m in rec:
         for fn in ('add_mul_karatsuba_with_efficient_sum', 'add_mul_karatsuba'):
             t.append({'kind': 'rec', 'n': n, 'm': m, 'fn': fn})
+    odd_half = [(21, 11), (11, 21), (23, 12), (37, 19)] if q else [(21, 11), (11, 21), (23, 12), (12, 23), (25, 13), (37, 19), (19, 37), (41, 21), (43, 22)]
+    for n, m in odd_half:  # the larger width odd, the other one exactly half of it rounded up
+        for fn in ('add_mul_karatsuba_with_efficient_sum', 'add_mul_karatsuba'):
+            t.append({'kind': 'full', 'n': n, 'm': m, 'fn': fn, 'be': (n + m) % 4 == 0})
     full = [(18, 18), (20, 20), (21, 21), (19, 20), (36, 36)] if q else [
         (18, 18), (20, 20), (21, 21), (19, 20), (23, 23), (24, 24), (35, 35), (36, 36), (37, 37), (40, 40), (41, 41), (18, 36), (36, 20), (47, 47), (48, 48), (64, 64)]
     for n, m in full:
@@ -372,7 +378,7 @@ def run_task(task, acc):
         n, m = task['n'], task['m']
         for fn in MUL_FNS:
             for be in (False, True):
-                for h in ('H0', 'H1') + (('SATW', 'DEC') if n + m <= 4 else ()):
+                for h in ('H0', 'H1') + (('SATW', 'DEC') if n + m <= 4 else ()) + (('ODD',) if n + m <= 8 else ()):
                     build_and_check(acc, fn, n, m, be, h)
         if n + m <= 4:
             # operand bits listed with repeats and constant gates among them (sign-extended / shifted operands)
@@ -388,7 +394,7 @@ def run_task(task, acc):
         n = task['n']
         for fn in SQ_FNS:
             for be in (False, True):
-                for h in ('H0', 'H1') + (('SATW', 'DEC') if n <= 4 else ()):
+                for h in ('H0', 'H1') + (('SATW', 'DEC') if n <= 4 else ()) + (('ODD',) if n <= 8 else ()):
                     build_and_check(acc, fn, n, n, be, h, square=True)
                 if n <= 3:
                     for tag, c_, ops_ in arith.repeated_operand_hosts(n):
